@@ -325,7 +325,19 @@ func (rd *vcStreamReader) Step(limit int) (int, error) {
 	}
 	var err error
 	consumed := 0
-	switch r.intn(12) {
+	switch r.intn(14) {
+	case 12, 13:
+		// Peek alone: nothing is consumed, so a later read of any kind (and a later Peek) must
+		// still start at the same position - a stale Peek cache shows up at the first byte
+		var p []byte
+		p, err = rd.Rd.Peek(n)
+		if err == nil {
+			if len(p) != n {
+				rd.Bad = fmt.Sprintf("Peek(%d) returned %d bytes", n, len(p))
+			}
+			rd.verify("Peek", p)
+		}
+		rd.note("Peek")
 	case 0, 1, 2:
 		var p []byte
 		p, err = rd.Rd.Next(n)
